@@ -453,6 +453,7 @@ def run(ctx: Ctx):
     index_dicts(ctx, "R04.a2")
     unpack_pairs(ctx, "R04.a2")
     check_accessors_are_sets(ctx, "R04.a2")
+    check_state_order_accessors(ctx, "R04.a2")
     # the number of values each generated function declares to return is the extent of the array it fills
     from .c03 import return_arity
 
@@ -493,3 +494,30 @@ def check_accessors_are_sets(ctx: Ctx, rule: str):
             ctx.fail(rule, key, f"ODE.{acc} sorts `{sorted_sites[0].text}`, a {operand}, not a set: an atom that belongs to several components is listed once per component and gets several slots", f.where())
         else:
             ctx.undecided(rule, key, f"ODE.{acc}: the type of the sorted operand ({operand}) is not known", f.where())
+
+
+def check_state_order_accessors(ctx: Ctx, rule: str):
+    """ODE.sorted_state_derivatives / ODE.sorted_states give the dependency-sorted order on *every* path: each value they
+    can return is derived from self.sorted_assignments(...) (the order rhs and the schemes number their output by).  A
+    shortcut that returns the name-sorted accessor for some models gives those models two different state layouts."""
+    from sa import av
+
+    from . import util
+    from .c03 import _branches
+
+    for qn, sources in (("ODE.sorted_state_derivatives", ("sorted_assignments",)), ("ODE.sorted_states", ("sorted_state_derivatives", "sorted_assignments"))):
+        f = ctx.sm.func("ode.py", qn, required=False)
+        if f is None:
+            continue
+        v = util.value_of(ctx, f)
+        key = f.key("every-path-sorted")
+        if av.has_unk(v):
+            ctx.undecided(rule, key, f"what {qn} returns is not understood", f.where())
+            continue
+        odd = []
+        for _c, leaf in _branches(v):
+            if leaf[0] == "raise":
+                continue
+            if not any(m_[2] in sources for m_ in av.find_all(leaf, "mcall")):
+                odd.append(leaf)
+        ctx.check(not odd, rule, key, "every path returns (a filter / map of) the dependency-sorted assignments", f"{qn} returns `{av.show(odd[0])[:90] if odd else ''}` on some path, which is not derived from the dependency-sorted assignments: for those models the state slots of state_index / init_state_values differ from the slots rhs and the schemes write", f.where())
